@@ -451,7 +451,7 @@ def check_ma_selector(repo, rep):
     rep.rule(rid, "ma(): for every matype of its own documented table the selector returns structurally the same series as the "
                   "selected moving average called directly with the same period / source (equal structural hash of every element); "
                   "undocumented numbers raise")
-    from vlib.indic_vals import hid
+    from vlib.indic_vals import hid, eval_dag, D
     mod = repo.module("jesse/indicators/ma.py")
     fn = repo.func("jesse/indicators/ma.py", "ma")
     # the dispatch table: matype == k branches calling <name>(...)
@@ -494,6 +494,27 @@ def check_ma_selector(repo, rep):
                 idx = next((i for i, (x, y) in enumerate(zip(a.data, b.data)) if hid(x) != hid(y)), None)
                 rep.violation(rid, f"ma|matype={k}", f"ma(matype={k}) does not return what {target}() returns for the same arguments (first differing element {idx}, lengths {len(a.data)}/{len(b.data)})")
             rep.instance(rid, f"matype={k}", {"matype": k, "target": target})
+            # single value on an input longer than the warm-up window: the selector must slice exactly as the selected average does
+            NLs, Ws = 90, 60
+            r3 = IR.run_indicator(repo, "jesse/indicators/ma.py", fn, NLs, False, warmup=Ws, overrides={"matype": k, "period": 5})
+            r4 = IR.run_indicator(repo, trel, tfn, NLs, False, warmup=Ws, overrides=over)
+            if r3[0] == "ok" and r4[0] == "ok" and isinstance(r3[1], D) and isinstance(r4[1], D):
+                if hid(r3[1]) != hid(r4[1]):
+                    wit = None
+                    try:
+                        for vn, val in IR.valuations(NLs):
+                            x, y = eval_dag(r3[1], val), eval_dag(r4[1], val)
+                            if x is not None and y is not None and not ((x != x and y != y) or abs(x - y) <= 1e-9 * max(1.0, abs(x), abs(y))):
+                                wit = (vn, x, y)
+                                break
+                    except Undecided:
+                        wit = None
+                    if wit:
+                        rep.violation(rid, f"ma|matype={k}|single-value", f"ma(matype={k}, sequential=False) on an input longer than the warm-up window differs from "
+                                                                            f"{target}(sequential=False) (valuation '{wit[0]}': {wit[1]!r} vs {wit[2]!r}): the selector does not slice the input as the selected average does")
+                    else:
+                        rep.undecided_item(f"ma matype {k}: single value on a long input is computed differently from {target}() but agrees on the witness valuations")
+                rep.instance(rid, f"matype={k}|long-single", None)
         except Undecided as e:
             rep.undecided_item(f"ma matype {k}: {e}")
     # an undocumented number raises
